@@ -59,6 +59,9 @@ GROUPS += rv_groups()
 GROUPS += [Group(name="C01/riscv.%s.uimm12" % m, unity="C01/u_riscv_forms.cpp", entry="h_riscv_form",
                  functions=[("parse_instruction_riscv", "asm/riscv.cpp", "harness (token-script contract), form 3, immediates 2048..4095 only")],
                  defines=["FORM=3", "MNEM=%s" % m, "F3=%d" % f3, "UIMM12_ONLY"], unwind=320, checks=CH, timeout=900, tier="quick") for f, m, f3 in [x for x in _RVF if len(x) == 3] if f == 3]
+# decoder side of the round trip for AVR8: instruction lengths per the manual (obligation of the C08 disassembler contract)
+import C08 as _c08
+GROUPS += [g for g in _c08.GROUPS if g.name == "C08/disasm_avr8"]
 LEVEL = "proof"
 TRUSTED = ["the expected words in contracts/C01/u_riscv_forms.cpp are a hand transcription of the RV32I base instruction formats and the instruction listing of the RISC-V manual", "spec_enc_b/spec_dec_b/spec_enc_j/spec_dec_j in contracts/C01/u_riscv_imm.cpp are a hand transcription of the B-type and J-type immediate layouts of the RISC-V manual",
            "spec_two()/spec_src() in contracts/C01/u_asm430.cpp are a hand transcription of SLAU144 sections 3.3-3.4",
